@@ -65,12 +65,53 @@ def contracts(repo):
     return out
 
 
+def sparse_header_gate(rep, pid):
+    """VMDK: every sparse-extent header that SparseDisk uses -- the leading one and the footer copy of stream-optimized images -- is built by
+    SparseExtentHeader, whose constructor is the magic gate (its contract: normal return => magic is KDMV / COWD / SE-sparse).  Shape
+    obligation: in vmdk.py the three raw header structures are parsed nowhere but inside SparseExtentHeader.__init__, and every value
+    stored into self.header in SparseDisk.__init__ is a SparseExtentHeader(...) call."""
+    import ast
+    import os
+
+    from pyvc import driver
+
+    rel = "dissect/hypervisor/disk/vmdk.py"
+    name = "vmdk:SparseDisk.__init__/every_header_passes_the_magic_gate"
+    tree = ast.parse(open(os.path.join(rep.repo, rel)).read())
+    from pyvc import alpha
+
+    alpha.restore_module(tree, rel)
+    why = []
+    raw = ("VMDKSparseExtentHeader", "COWDSparseExtentHeader", "VMDKSESparseConstHeader")
+    for cls in [n for n in tree.body if isinstance(n, ast.ClassDef)]:
+        for fn in [n for n in cls.body if isinstance(n, ast.FunctionDef)]:
+            for c in ast.walk(fn):
+                if isinstance(c, ast.Call) and isinstance(c.func, ast.Attribute) and c.func.attr in raw and (cls.name, fn.name) != ("SparseExtentHeader", "__init__"):
+                    why.append(f"{cls.name}.{fn.name} line {c.lineno}: {ast.unparse(c)[:60]} parses a raw header without the magic gate")
+            if (cls.name, fn.name) == ("SparseDisk", "__init__"):
+                for a_ in ast.walk(fn):
+                    if isinstance(a_, ast.Assign) and any(isinstance(t, ast.Attribute) and t.attr == "header" and isinstance(t.value, ast.Name) and t.value.id == "self" for t in a_.targets):
+                        v = a_.value
+                        if not (isinstance(v, ast.Call) and isinstance(v.func, ast.Name) and v.func.id == "SparseExtentHeader"):
+                            why.append(f"SparseDisk.__init__ line {a_.lineno}: self.header = {ast.unparse(v)[:60]} is not a SparseExtentHeader(...) call")
+    rep.functions.append({"function": f"{rel}:SparseDisk.__init__ (header and footer selection)", "contract": "every header in use was built by SparseExtentHeader (the magic gate)", "props": ["C12"]})
+    rep.obligations[name] = {"verdict": "discharged" if not why else "undischarged", "atoms": 1, "ms": 0, "backends": {"set-inclusion"}, "stages": set(), "line": 0, "props": ["C12"]}
+    if why:
+        p = driver.write_replay(pid, name, {"property": pid, "obligation": name, "verifier_output": "; ".join(why)})
+        rep.violations.append((p, "; ".join(why[:3]), True))
+
+
 def extra_checks(rep, pid, ledger, known):
     """HDD.open: every image that is stacked has type Compressed or Plain (body of the per-image loop, executed for an arbitrary image)"""
     import ast
 
     from pyvc import driver
     from pyvc.engine import Engine, State, find_function
+
+    try:
+        sparse_header_gate(rep, pid)
+    except (OSError, SyntaxError) as e:
+        rep.unsupported.append(f"vmdk:SparseDisk.__init__/every_header_passes_the_magic_gate: unsupported({e})")
 
     name = "hdd:HDD.open/image_type_gate"
     try:
